@@ -349,6 +349,13 @@ if not VIOLATED:
         diff = {k for k in after if before.get(k) != after[k]}
         if proc.get(key) != val or len(diff) != 1:
             VIOLATED, DETAIL = True, f'set({key!r}, {val!r}): get -> {proc.get(key)!r}; settings changed: {sorted(diff)}'; break
+    # the same keys assigned again (what a sweep does run after run): every read returns the value assigned last
+    for key, v1, v2 in (('detector.geometry.row', 5, 6), ('detector.characteristics.quantum_efficiency', 0.5, 0.75), ('pipeline.photon_collection.illum.arguments.level', 3, 4),
+                        ('pipeline.photon_collection.other.enabled', False, True)):
+        if VIOLATED: break
+        proc.get(key); proc.set(key, v1); r1 = proc.get(key); proc.set(key, v2); r2 = proc.get(key)
+        if r1 != v1 or r2 != v2:
+            VIOLATED, DETAIL = True, f'{key!r}: set {v1!r} -> get {r1!r}; set {v2!r} -> get {r2!r}'
 """, "expect": "unknown keys are refused without side effect; known keys change exactly one setting"}
 
 
@@ -389,9 +396,23 @@ def set_unit(u: Unit):
         val = VFloat(0.25) if "quantum" in label else VInt(7) if ("row" in label or "col" in label or "adc" in label) else VFloat(3.0) if "detector." in label else \
             VBool(True) if label.endswith("enabled") else VInt(z3.Int("new_value"))
 
-        def setup(ex, build=build, val=val):
+        earlier = VFloat(0.5) if "quantum" in label else VInt(5) if ("row" in label or "col" in label or "adc" in label) else VFloat(2.0) if "detector." in label else \
+            VBool(False) if label.endswith("enabled") else VInt(z3.Int("earlier_value"))
+
+        def setup(ex, build=build, val=val, earlier=earlier):
             proc = mk_processor(ex, u)
             key, res = build(ex)
+            holder.pop("history_failed", None)
+            if res:
+                # HISTORY: the setting was read, assigned another value and read again before the assignment under check (a sweep assigns
+                # the same key run after run): nothing remembered from those calls may survive into the read after this one
+                fr0 = Frame(None, fg.module)
+                try:
+                    ex.call_function(VFunc(fg), [proc, key], {}, fr0)
+                    ex.call_function(VFunc(fi), [proc, key, earlier], {"convert_value": VBool(False)}, fr0)
+                    ex.call_function(VFunc(fg), [proc, key], {}, fr0)
+                except PyExc as pe:
+                    holder["history_failed"] = ex.exc_class_name(pe.val)
             holder.update(res=res, key=key, upto=ex.st.next_addr, snap=snapshot(ex))
             return [proc, key, val], {"convert_value": VBool(False)}
         ps = u.paths(fi, setup, cfg, label=f"set[{label}]")
@@ -401,8 +422,8 @@ def set_unit(u: Unit):
                 ok = p.kind == "raise" and not ch
                 u.oblige(p, f"set.existing_only[{label}]", bool(ok), {"changed": str(ch)[:200], "outcome": p.kind}, KEY_REPLAY)
                 continue
-            if p.kind != "return":
-                u.oblige(p, f"set.accepts_existing[{label}]", False, {"exc": p.exc_name()}, KEY_REPLAY)
+            if p.kind != "return" or holder.get("history_failed"):
+                u.oblige(p, f"set.accepts_existing[{label}]", False, {"exc": p.exc_name() or holder.get("history_failed")}, KEY_REPLAY)
                 continue
             u.oblige(p, f"set.frame[{label}]", len(ch) == 1, {"changed": str(ch)[:300]}, KEY_REPLAY)
             try:
